@@ -34,6 +34,18 @@ impl Prop for PXSem {
                 c => (c as char).to_string(),
             });
         }
+        // -I R: one run per line, R replaced in the initial arguments
+        let repl = input.get("repl").map(json_to_bytes).unwrap_or_default();
+        if !repl.is_empty() {
+            match input.get("replform").and_then(|f| f.as_u64()).unwrap_or(0) % 3 {
+                1 if repl == b"{}" => o.opts.push("-i".into()),
+                2 => o.opts.push(format!("--replace={}", String::from_utf8_lossy(&repl))),
+                _ => {
+                    o.opts.push("-I".into());
+                    o.opts.push(String::from_utf8_lossy(&repl).into_owned());
+                }
+            }
+        }
         for (k, flag) in [("n", "-n"), ("L", "-L"), ("s", "-s")] {
             let v = input[k].as_u64().unwrap_or(0);
             if v > 0 {
@@ -114,6 +126,40 @@ impl Prop for PXSem {
         }
         let mut v = json!({"stdin": bytes_to_json(&stdin), "delim": delim, "n": n, "L": l, "s": s, "x": rng.chance(1, 5), "r": rng.chance(1, 4),
                "init": init, "cmdlen": cmdlen, "script": script, "afile": false, "echo": false, "t": false, "P": 0});
+        if idx % 6 == 5 {
+            // -I: lines (blanks inside do not split them), the replace string once, twice or not at all in each initial argument
+            let r = *rng.pick(&["{}", "{}", "X", "%%", "{"]);
+            let words = ["a", "b c", "d  e", "é", "x{y", "-n", "*", "{}", "z	w", "$HOME", "a;b"];
+            let mut text = vec![];
+            for _ in 0..rng.below(7) {
+                text.extend(rng.pick(&words).as_bytes());
+                text.extend(*rng.pick(&[b"\n" as &[u8], b"\n", b"\n\n", b"\n"]));
+            }
+            if rng.chance(1, 4) && !text.is_empty() {
+                text.pop(); // the last line without its newline
+            }
+            let mut init: Vec<Value> = vec![];
+            for _ in 0..1 + rng.below(3) {
+                let pieces = ["", "p", "=", "--opt=", " ", r, r, r];
+                let mut a = String::new();
+                for _ in 0..1 + rng.below(3) {
+                    a.push_str(*rng.pick(&pieces));
+                }
+                init.push(str_to_json(&a));
+            }
+            let d = if rng.chance(1, 4) { 0i64 } else { -1 };
+            if d == 0 {
+                for b in text.iter_mut() {
+                    if *b == b'\n' {
+                        *b = 0;
+                    }
+                }
+            }
+            v = json!({"stdin": bytes_to_json(&text), "delim": d, "n": 0, "L": 0, "s": 0, "x": false, "r": rng.chance(1, 3),
+                       "init": init, "cmdlen": cmdlen, "script": v["script"].clone(), "afile": false, "echo": false, "t": false, "P": 0,
+                       "repl": str_to_json(r), "replform": rng.below(3)});
+            return v;
+        }
         // one run in five uses what XargsSem describes beyond the listed properties (-a FILE, -t, -P, no command)
         let beyond = rng.chance(1, 5);
         if beyond {
